@@ -33,7 +33,7 @@ ASSUMPTIONS = ["six 1.17 shim", "consonance randint(float) coerced", "alternatio
                "connection is up or being established", "pong timing keeps a margin from the tick (the instant in between is not judged)"]
 BUDGET = {"quick": (700, 170), "thorough": (20000, 2400)}
 FAULTS = ["connect_refused", "peer_fin", "rst", "srv_no_pong", "srv_late_pong", "stream_error", "login_failure", "tcp_cut"]
-PROBES = ["auto_reconnect_after_stream_error", "no_reconnect_after_conflict", "no_reconnect_option_off", "ping_timeout_disconnect",
+PROBES = ["write_raced_with_close_by_other_thread", "auto_reconnect_after_stream_error", "no_reconnect_after_conflict", "no_reconnect_option_off", "ping_timeout_disconnect",
           "pings_all_answered_no_disconnect", "passive_key_upload_reboot", "failure_closes_connection", "socket_dispatcher",
           "app_disconnect_while_connecting", "connected_before_previous_disconnected"]
 SHRINK = ["conns"]
@@ -60,6 +60,33 @@ def setup():
 
     _S["Probe"] = Probe
     _S.update(S)
+    # observation only: was the socket still open when a write entered the network layer / the dispatcher?  A write that began on an open
+    # socket which another thread closed before the bytes were handed over fails in the kernel and writes nothing: that is
+    # a race the OS resolves, not a write to a connection that is down.
+    from yowsup.layers.network.dispatcher.dispatcher_asyncore import AsyncoreConnectionDispatcher
+    from yowsup.layers.network.dispatcher.dispatcher_socket import SocketConnectionDispatcher
+
+    def observed(orig):
+        def method(self, *a):
+            w = _CUR.get("w")
+            if w is None:
+                return orig(self, *a)
+            sock = getattr(getattr(self, "_dispatcher", self), "socket", None)
+            name = w.k.cur.name if w.k.cur is not None else None
+            st = w.write_ctx.setdefault(name, [])
+            st.append(sock is not None and not getattr(sock, "closed", True))
+            try:
+                return orig(self, *a)
+            finally:
+                st.pop()
+        return method
+
+    AsyncoreConnectionDispatcher.initiate_send = observed(AsyncoreConnectionDispatcher.initiate_send)
+    SocketConnectionDispatcher.sendData = observed(SocketConnectionDispatcher.sendData)
+    S["YowNetworkLayer"].send = observed(S["YowNetworkLayer"].send)
+
+
+_CUR = {}
 
 
 def total(tier):
@@ -137,6 +164,14 @@ class W(fullwire.FullWorld):
         self.app_reconnected = set()
         self.client_pings = []
         self.connecting_disc_requests = 0
+        self.disc_requested_attempts = set()
+        self.write_ctx = {}
+        _CUR["w"] = self
+
+        def tag():
+            st = self.write_ctx.get(self.k.cur.name if self.k.cur is not None else None)
+            return ("began-while-open",) if st and any(st) else ()
+        self.net.bad_send_tag = tag
 
     def violate(self, sig, detail):
         if self.dispatcher == "socket" and self.connecting_disc_requests:
@@ -331,6 +366,7 @@ class W(fullwire.FullWorld):
                                                                      S["YowNetworkLayer"].STATE_CONNECTING):
                     self.k.note("app disconnect request, attempt", a)
                     self.app_disc_requests += 1
+                    self.disc_requested_attempts.add(a)
                     try:
                         self.app.disconnect()
                     except Exception as e:  # noqa
@@ -465,14 +501,17 @@ class W(fullwire.FullWorld):
             lost = []
             for (a, kind) in self.injected:
                 sp = self.script[a] if a < len(self.script) else {}
-                if sp.get("end") in ("app_disconnect_early",):
+                if sp.get("end") in ("app_disconnect_early",) or a in self.disc_requested_attempts:
+                    # the application itself closed this connection; what the server sent may have arrived after that
                     continue
                 lost.append((a, kind))
             if len(lost) > (got_fail + got_se):
                 self.violate("failure-or-stream-error/not-delivered", "server sent %s; the application saw %d failures and %d "
                              "stream errors" % (self.injected, got_fail, got_se))
         # writes to a connection that is down
-        bad = [e for e in self.net.log if e[0] in ("send-after-close", "send-not-connected")]
+        bad = [e for e in self.net.log if e[0] in ("send-after-close", "send-not-connected") and "began-while-open" not in e]
+        if any("began-while-open" in e for e in self.net.log):
+            self.probe("write_raced_with_close_by_other_thread")
         if bad:
             self.violate("write-to-down-connection", "%d writes were attempted on a connection that was down, e.g. %s" % (len(bad), bad[0][:2]))
         # automatic reconnect after a stream error — judged by counting attempts: every attempt beyond the first is caused by
